@@ -24,7 +24,9 @@ EXPLANATION = (
     'Tie: the same definitions at Float reproduce the C bit for bit (array dumps after inserts, touching lists '
     'incl. order, trim radius, candidate lists, nearest-element distances, d2/d3 kernels, bounding spheres) on '
     'random / clustered / collinear / lattice / duplicate / sorted / 1e-30..1e30-scaled spheres and on patch, '
-    'needle, degenerate, planar, lattice and strip element sets in random insertion orders. Oracles on the '
+    'needle, degenerate, planar, lattice and strip element sets in random insertion orders; op walldist runs the '
+    'REAL ref_phys_wall_distance (serial, its own rand() shuffle, wall subset chosen through the bc dict) on a grid '
+    'made of the generated elements and is bit-compared with the model built in a fixed order. Oracles on the '
     "implementation's own output, exact rational arithmetic: BallInv on dumped arrays, brute-force overlap "
     'sets, brute-force minimum with an independent point-segment/point-triangle routine at 1e-12 L. '
     'Stream search_scale additionally checks the 1e-12 L accuracy of ref_search_distance3 over element sizes '
@@ -48,9 +50,13 @@ ASSUMPTIONS = [
     'modelled by hand and tied by differential execution: ref_search.c completely except ref_search_selection '
     '(MPI bisection), ref_search_dist3 (unused Ericson variant), ref_search_depth/stats/tec (diagnostics); '
     'ref_node_bounding_sphere_xyz; the insertion loop of ref_phys_wall_distance with the permutation as input '
-    '(ref_sort_shuffle uses rand(): the theorems quantify over every permutation instead)',
-    'not covered here: the MPI part of ref_phys_wall_distance (balancing, bcast of wall parts, alltoallv of '
-    'distances, ghost update) and ref_phys_local_wall; run-level `ref distance` streams belong to the CLI checks',
+    '(op wallbuild; ref_sort_shuffle uses rand(): the theorems quantify over every permutation instead) and the '
+    'whole serial ref_phys_wall_distance incl. ref_phys_local_wall for edg/tri walls selected by the bc dict '
+    '(op walldist; the Float model inserts in index order - agreement of the bits with the C, which inserts in '
+    'rand() order, is itself evidence that the float pruning dropped no nearer element on those inputs)',
+    'not covered here: the np>1 part of ref_phys_wall_distance (node balancing, bcast of wall parts in chunks of '
+    '1e6 cells, alltoallv of distances, ghost update), quads split into two triangles by ref_phys_local_wall, '
+    'ref_phys_wall_distance_static; run-level `ref distance`/`refmpi distance` streams belong to the CLI checks',
     'heap/pointer/32-bit index behaviour of the C arrays is modelled with unbounded Nat/Int and an inductive tree '
     'whose nodes remember their array slot; element ids outside the caller-supplied xyz array are undefined '
     'behaviour in the C and are excluded by the harness (bad-op)',
